@@ -140,10 +140,23 @@ def _commut(name, a, b):
 
 
 def minmax(name, a, b):
+    """min/max as an associative-commutative-idempotent uninterpreted function: nested applications are flattened"""
     if a == b: return a
     if a.is_const() and b.is_const():
         return C(min(a.const_value(), b.const_value()) if name == 'min' else max(a.const_value(), b.const_value()))
-    return _commut(name, a, b)
+    args = []
+    for x in (a, b):
+        at = None
+        if x.is_poly() and len(x.num.t) == 1:
+            (m, c), = x.num.t.items()
+            if c == 1 and len(m) == 1 and m[0][1] == 1: at = alg._ATOMS[m[0][0]]
+        if at is not None and at[0] == 'fn' and at[1] == name: args.extend(at[2])
+        else: args.append(x)
+    uniq = []
+    for x in args:
+        if not any(x == y for y in uniq): uniq.append(x)
+    uniq.sort(key=str)
+    return fn(name, *uniq)
 
 
 def fabs(a):
